@@ -421,7 +421,8 @@ Notation reducer := (@reducer M A).
 Notation ring := (@ring A unit).
 Notation rpush := (@push A unit rcast (kfill K)).
 
-Definition state_ok (r : reducer) : Prop := rwf M r /\ rinv M K r.
+Definition state_ok (r : reducer) : Prop :=
+  rwf M r /\ rinv M K r /\ (ignored (rrec r) = true -> ptr (rrec r) = 0).
 
 Lemma push_ok (s : ring) o ip s' out : wf s -> rpush s o ip = Ok s' out -> wf s' /\ N s' = N s /\ full s'.
 Proof.
@@ -433,15 +434,18 @@ Proof.
   unfold incr in Ei. destruct (st s2) eqn:E2; try discriminate. injection Ei as <- _.
   unfold full. cbn. rewrite E2. exact I.
 Qed.
-Lemma initialize_wf (s : ring) sh : 0 < N s -> wf (initialize (kfill K) s sh tt) /\ N (initialize (kfill K) s sh tt) = N s.
-Proof. intros Hn. unfold initialize, wf. destruct (st s); cbn; rewrite ?repeat_length; repeat split; lia. Qed.
+Lemma initialize_wf (s : ring) sh : 0 < N s ->
+  wf (initialize (kfill K) s sh tt) /\ N (initialize (kfill K) s sh tt) = N s /\ full (initialize (kfill K) s sh tt).
+Proof. intros Hn. unfold initialize, wf, full. destruct (st s); cbn; rewrite ?repeat_length; repeat split; lia. Qed.
+Lemma full_not_ignored (s : ring) : full s -> ignored s = true -> ptr s = 0.
+Proof. intros Hf Hi. apply full_ignored in Hf. congruence. Qed.
 
 Lemma ok_transfer (r r' : reducer) : state_ok r ->
   rdt r' = rdt r -> rdur r' = rdur r -> rincl r' = rincl r -> rdecay r' = rdecay r ->
   (kcounts K = false -> rcount r' = rcount r) -> N (rrec r') = N (rrec r) ->
-  wf (rrec r') -> (rinit r' = false -> full (rrec r')) -> state_ok r'.
+  wf (rrec r') -> (rinit r' = false -> full (rrec r')) -> (ignored (rrec r') = true -> ptr (rrec r') = 0) -> state_ok r'.
 Proof.
-  intros (_ & HN & Hd & Hc) E1 E2 E3 E4 E5 E6 Hw Hf. split; [split; assumption|].
+  intros (_ & (HN & Hd & Hc) & _) E1 E2 E3 E4 E5 E6 Hw Hf Hp. split; [split; assumption|]. split; [|exact Hp].
   unfold rinv. rewrite E1, E2, E3, E4, E6. split; [exact HN|]. split; [exact Hd|].
   intros Hk. rewrite (E5 Hk). apply Hc; exact Hk.
 Qed.
@@ -452,32 +456,32 @@ Proof. intros ((Hw & _) & _). apply Hw. Qed.
 
 Lemma forward_ok r sh obs : state_ok r -> state_ok (res_state (forward M K r sh obs)).
 Proof.
-  intros Hok. pose proof Hok as ((Hwf & Hfull) & _). pose proof (ok_Npos r Hok) as Hn.
+  intros Hok. pose proof Hok as ((Hwf & Hfull) & _ & Hptr). pose proof (ok_Npos r Hok) as Hn.
   pose proof (same_cfg_bump M K r) as (b1 & b2 & b3 & b4 & b5).
+  assert (Hb : state_ok (bump M K r)).
+  { apply (ok_transfer r); auto using bump_count; rewrite ?rrec_bump, ?rinit_bump; auto. }
   unfold forward. fold (bump M K r). destruct (rinit r) eqn:Ei; cbn [negb].
   - destruct (ignored (rrec r)) eqn:Eig.
-    + destruct (initialize_wf (rrec r) sh Hn) as (Hwi & HNi).
+    + destruct (initialize_wf (rrec r) sh Hn) as (Hwi & HNi & Hfi).
       destruct (rpush (initialize (kfill K) (rrec r) sh tt) _ (rinpl r)) as [rec' o'|e] eqn:Ep; cbn [res_state].
       * destruct (push_ok _ _ _ _ _ Hwi Ep) as (Hw' & HN' & Hf').
-        apply (ok_transfer r); cbn; auto using bump_count; congruence.
-      * apply (ok_transfer r); cbn; auto using bump_count. rewrite rinit_bump, Ei. discriminate.
+        apply (ok_transfer r); cbn; auto using bump_count, full_not_ignored; congruence.
+      * apply (ok_transfer r); cbn; auto using bump_count, full_not_ignored.
     + destruct (rpush (rrec r) _ (rinpl r)) as [rec' o'|e] eqn:Ep; cbn [res_state].
       * destruct (push_ok _ _ _ _ _ Hwf Ep) as (Hw' & HN' & Hf').
-        apply (ok_transfer r); cbn; auto using bump_count.
-      * apply (ok_transfer r); cbn; auto using bump_count. rewrite rinit_bump, Ei. discriminate.
+        apply (ok_transfer r); cbn; auto using bump_count, full_not_ignored.
+      * apply (ok_transfer r); cbn; auto using bump_count; try (intros; congruence). rewrite rinit_bump, Ei. discriminate.
   - specialize (Hfull eq_refl).
-    assert (Hb : state_ok (bump M K r)).
-    { apply (ok_transfer r); auto using bump_count; rewrite ?rrec_bump; auto. }
     destruct (peek (rrec r)) as [s0 [| | |d shs els|]|e]; cbn [res_state]; try exact Hb;
       try (rewrite rrec_bump;
            destruct (rpush (rrec r) _ (rinpl r)) as [rec' o'|e'] eqn:Ep; cbn [res_state]; [|exact Hb];
            destruct (push_ok _ _ _ _ _ Hwf Ep) as (Hw' & HN' & Hf');
-           apply (ok_transfer r); cbn; auto using bump_count).
+           apply (ok_transfer r); cbn; auto using bump_count, full_not_ignored).
     destruct (kcheck K && negb (shape_eqb sh shs)); cbn [res_state]; [exact Hb|].
     rewrite rrec_bump.
     destruct (rpush (rrec r) _ (rinpl r)) as [rec' o'|e'] eqn:Ep; cbn [res_state]; [|exact Hb].
     destruct (push_ok _ _ _ _ _ Hwf Ep) as (Hw' & HN' & Hf').
-    apply (ok_transfer r); cbn; auto using bump_count.
+    apply (ok_transfer r); cbn; auto using bump_count, full_not_ignored.
 Qed.
 
 Lemma resize_rows_length sh (rows : list (list A)) n' : length (resize_rows M K sh rows n') = n'.
@@ -489,39 +493,108 @@ Qed.
 
 Lemma set_dt_ok r v : state_ok r -> state_ok (res_state (rd_set_dt M K r v)).
 Proof.
-  intros Hok. pose proof Hok as ((Hwf & Hfull) & (HN & Hd & Hc)). pose proof (ok_Npos r Hok) as Hn.
+  intros Hok. pose proof Hok as ((Hwf & Hfull) & (HN & Hd & Hc) & Hptr). pose proof (ok_Npos r Hok) as Hn.
   unfold rd_set_dt. destruct (negb (gtb M v (zero M))); [exact Hok|]. cbn [res_state].
   assert (Hpos : 0 < Z.to_nat (recordsz_expr M (rdur r) v (rincl r))) by (unfold recordsz_expr; lia).
   assert (H1 : forall r1 : reducer,
              r1 = r \/ r1 = mkRed v (rdur r) (rincl r) (rinpl r) (rdecay r) (rcount r) (rinit r) (record_set_dt M K r v) ->
-             rwf M r1 /\ N (rrec r1) = Z.to_nat (recordsz_expr M (rdur r1) (rdt r1) (rincl r1)) /\ rcount r1 = rcount r).
-  { intros r1 [-> | ->]; [repeat split; auto|]. cbn [rrec rdt rdur rincl rcount rinit].
+             rwf M r1 /\ N (rrec r1) = Z.to_nat (recordsz_expr M (rdur r1) (rdt r1) (rincl r1)) /\ rcount r1 = rcount r /\
+             (ignored (rrec r1) = true -> ptr (rrec r1) = 0)).
+  { intros r1 [-> | ->]; [split; [split; [exact Hwf|exact Hfull]|split; [exact HN|split; [reflexivity|exact Hptr]]]|].
+    unfold rwf. cbn [rrec rdt rdur rincl rcount rinit].
     unfold record_set_dt. set (n' := Z.to_nat (recordsz_expr M (rdur r) v (rincl r))) in *.
     destruct (Nat.eqb_spec n' (N (rrec r))) as [E|E].
-    - repeat split; auto.
+    - split; [split; [exact Hwf|exact Hfull]|]. split; [symmetry; exact E|]. split; [reflexivity|exact Hptr].
     - destruct (st (rrec r)) as [|d|d sh rows] eqn:Est.
-      + split; [|split; reflexivity]. split; [|intros Ei; specialize (Hfull Ei); unfold full in Hfull; rewrite Est in Hfull; contradiction].
-        destruct Hwf as (_ & Hp & _). unfold wf. cbn. repeat split; auto.
-        (* pointer of ignored storage *) unfold full in *. lia.
-      + split; [|split; reflexivity]. split; [|intros Ei; specialize (Hfull Ei); unfold full in Hfull; rewrite Est in Hfull; contradiction].
-        destruct Hwf as (_ & Hp & _). unfold wf. cbn. repeat split; auto. lia.
+      + assert (Hp0 : ptr (rrec r) = 0) by (apply Hptr; unfold ignored; rewrite Est; reflexivity).
+        split; [|split; [reflexivity|split; [reflexivity|intros _; exact Hp0]]].
+        split; [|intros Ei; specialize (Hfull Ei); unfold full in Hfull; rewrite Est in Hfull; contradiction].
+        unfold wf. cbn. repeat split; auto. lia.
+      + assert (Hp0 : ptr (rrec r) = 0) by (apply Hptr; unfold ignored; rewrite Est; reflexivity).
+        split; [|split; [reflexivity|split; [reflexivity|intros _; exact Hp0]]].
+        split; [|intros Ei; specialize (Hfull Ei); unfold full in Hfull; rewrite Est in Hfull; contradiction].
+        unfold wf. cbn. repeat split; auto. lia.
       + assert (Hf : full (rrec r)) by (unfold full; rewrite Est; exact I).
         destruct (align_spec rcast rpromote rdeqb (kfill K) (rrec r) 0 Hwf Hf ltac:(lia))
           as (s1 & Ha & Hw1 & HN1 & Hp1 & (d1 & sh1 & Est0 & Est1) & _).
-        rewrite Ha, Est1. split; [|split; reflexivity]. split.
+        rewrite Ha, Est1. split; [|split; [reflexivity|split; [reflexivity|intros _; reflexivity]]]. split.
         * unfold wf. cbn. rewrite resize_rows_length. repeat split; lia.
         * intros _. unfold full. cbn. exact I. }
   set (r1 := if neb M v (rdt r) then _ else r).
-  assert (Hr1 : rwf M r1 /\ N (rrec r1) = Z.to_nat (recordsz_expr M (rdur r1) (rdt r1) (rincl r1)) /\ rcount r1 = rcount r).
+  assert (Hr1 : rwf M r1 /\ N (rrec r1) = Z.to_nat (recordsz_expr M (rdur r1) (rdt r1) (rincl r1)) /\ rcount r1 = rcount r /\
+                (ignored (rrec r1) = true -> ptr (rrec r1) = 0)).
   { apply H1. unfold r1. destruct (neb M v (rdt r)); auto. }
-  destruct Hr1 as (Hw1 & HN1 & Hc1).
+  destruct Hr1 as (Hw1 & HN1 & Hc1 & Hp1).
   assert (Hdec1 : kdecay K = None -> rdecay r1 = rdecay r) by (intros _; unfold r1; destruct (neb M v (rdt r)); reflexivity).
   destruct (kdecay K) as [f|] eqn:Ek.
-  - split; [exact Hw1|]. unfold rinv. cbn. rewrite Ek. split; [exact HN1|]. split; [reflexivity|].
+  - split; [exact Hw1|]. split; [|exact Hp1]. unfold rinv. cbn. rewrite Ek. split; [exact HN1|]. split; [reflexivity|].
     intros Hk. rewrite Hc1. apply Hc; exact Hk.
-  - split; [exact Hw1|]. unfold rinv. rewrite Ek. split; [exact HN1|]. split; [rewrite Hdec1 by reflexivity; exact Hd|].
+  - split; [exact Hw1|]. split; [|exact Hp1]. unfold rinv. rewrite Ek. split; [exact HN1|].
+    split; [rewrite Hdec1 by reflexivity; exact Hd|].
     intros Hk. rewrite Hc1. apply Hc; exact Hk.
 Qed.
+
+Lemma clear_ok r ks : state_ok r -> state_ok (res_state (rd_clear M K r ks)).
+Proof.
+  intros Hok. pose proof Hok as ((Hwf & Hfull) & (HN & Hd & Hc) & Hptr). pose proof (ok_Npos r Hok) as Hn.
+  unfold rd_clear. set (r1 := if kcounts K then set_count r 0%Z else r).
+  assert (Hrec1 : rrec r1 = rrec r) by (unfold r1; destruct (kcounts K); reflexivity).
+  assert (Hc1 : kcounts K = false -> rcount r1 = rcount r) by (intros Hk; unfold r1; rewrite Hk; reflexivity).
+  assert (Hf1 : rdt r1 = rdt r /\ rdur r1 = rdur r /\ rincl r1 = rincl r /\ rdecay r1 = rdecay r)
+    by (unfold r1; destruct (kcounts K); cbn; auto).
+  destruct Hf1 as (f1 & f2 & f3 & f4).
+  assert (Hfin : forall rec' b, N rec' = N (rrec r) -> wf rec' -> (b = false -> full rec') ->
+                 (ignored rec' = true -> ptr rec' = 0) -> state_ok (set_init (set_rec r1 rec') b)).
+  { intros rec' b H1 H2 H3 H4. apply (ok_transfer r); auto. }
+  destruct ks.
+  - rewrite Hrec1. unfold reset. destruct (st (rrec r)) as [|d|d sh rows] eqn:Est; cbn [res_state]; apply Hfin;
+      try reflexivity; try discriminate; try (intros _; reflexivity).
+    + unfold wf; cbn. repeat split; auto.
+    + unfold wf; cbn. repeat split; auto.
+    + unfold wf; cbn. rewrite map_length. destruct Hwf as (_ & _ & Hl). rewrite Est in Hl. repeat split; auto.
+  - cbn [res_state]. apply Hfin; try reflexivity; try discriminate; try (intros _; reflexivity).
+    + rewrite Hrec1. reflexivity.
+    + unfold wf, deinitialize; cbn. rewrite Hrec1. repeat split; auto.
+Qed.
+
+Lemma dump_ok r : state_ok r -> state_ok (res_state (rd_dump M r)).
+Proof.
+  intros Hok. pose proof Hok as ((Hwf & Hfull) & _ & Hptr). pose proof (ok_Npos r Hok) as Hn.
+  unfold rd_dump. destruct (rinit r) eqn:Ei; cbn [negb]; [exact Hok|]. specialize (Hfull eq_refl).
+  destruct (align_spec rcast rpromote rdeqb (kfill K) (rrec r) 0 Hwf Hfull ltac:(lia))
+    as (s1 & Ha & Hw1 & HN1 & Hp1 & (d1 & sh1 & Est0 & Est1) & _).
+  rewrite Ha, Est1. cbn [res_state]. apply (ok_transfer r); cbn; auto;
+    try (intros _; unfold full; rewrite Est1; exact I); try (unfold ignored; rewrite Est1; discriminate).
+Qed.
+
+(* every operation keeps the invariants; hence they hold in every reachable state *)
+Theorem step_ok r o : state_ok r -> state_ok (res_state (rstep M K r o)).
+Proof.
+  intros Hok. destruct o; cbn [rstep].
+  - apply forward_ok; exact Hok.
+  - unfold rd_peek. destruct (negb (rinit r)); [|exact Hok]. destruct (peek (rrec r)) as [? [| | | |]|]; exact Hok.
+  - apply dump_ok; exact Hok.
+  - unfold rd_view_scalar. destruct (negb (rinit r)); [|exact Hok]. destruct (st (rrec r)); try exact Hok.
+    destruct (out_of_range M r time tol); exact Hok.
+  - unfold rd_view_tensor. destruct (negb (rinit r)); [|exact Hok]. destruct (st (rrec r)); try exact Hok.
+    destruct (existsb _ times); exact Hok.
+  - apply clear_ok; exact Hok.
+  - apply set_dt_ok; exact Hok.
+  - cbn [res_state]. apply (ok_transfer r); cbn; auto; apply Hok.
+Qed.
+Theorem fresh_ok dt dur incl inpl : state_ok (fresh M K dt dur incl inpl).
+Proof. unfold state_ok, fresh, rwf, rinv, wf, full, recordsz_expr. cbn. repeat split; try lia; try discriminate; auto. Qed.
+Theorem run_ok ops : forall r, state_ok r -> state_ok (final M K r ops).
+Proof.
+  induction ops as [|o ops IH]; intros r Hok; [exact Hok|]. rewrite final_cons. apply IH. apply step_ok. exact Hok.
+Qed.
+
+(* clear() at ANY point of ANY operation sequence returns exactly the freshly constructed reducer of the
+   current configuration *)
+Theorem clear_anywhere dt dur incl inpl ops :
+  let r := final M K (fresh M K dt dur incl inpl) ops in
+  rd_clear M K r false = ROk (fresh M K (rdt r) (rdur r) (rincl r) (rinpl r)) RUnit.
+Proof. cbn zeta. apply clear_restores_initial. apply (run_ok ops). apply fresh_ok. Qed.
 End Invariants.
 
 Arguments bump {M A Obs} K r.
@@ -545,3 +618,4 @@ Arguments run_forwards {M A Obs} K sh o obs r _ _ _ _.
 Arguments run_forwards_noninitial {M A Obs} K sh obs r _ _ _ _.
 Arguments forward_spec {M A Obs} K r sh obs _ _ _.
 Arguments hist_length {A} s.
+Arguments state_ok {M A Obs} K r.
